@@ -169,7 +169,8 @@ def instances(tier):
                                 cover=["solver-raised"], weight=10))
     ro_shapes = {
         "rails-phases": S(N("S", "Source", rail="VIN", only=()), N("C", "Converter", "S", rail="3V3", phases=["a"], only=("iis",)),
-                          N("L", "ILoad", "C", phases=["a", "b"], only=()), phases=["a", "b"]),
+                          N("L", "ILoad", "C", phases=["a", "b"], only=()), N("L2", "PLoad", "S", phases=["a"], only=("pwrs",)),
+                          N("L3", "RLoad", "S", phases=["b"], only=()), N("L4", "ILoad", "S", phases=["b"], only=("iis",)), phases=["a", "b"]),
         "two-src": S(N("S1", "Source", only=()), N("L1", "ILoad", "S1", only=()), N("S2", "Source", only=()), N("G", "LinReg", "S2", only=("vdrop",)),
                      N("L2", "ILoad", "G", only=())),
         "mux": S(N("S1", "Source", pol="nonneg", only=()), N("S2", "Source", only=()), N("M", "PMux", ["S1", "S2"], only=("rs",)), N("L", "ILoad", "M", only=())),
